@@ -126,6 +126,7 @@ type CallPlan struct {
 	marshalFails  bool
 	marshalFailAt int
 	bad           string              // C08: what is wrong with this call ("" = a valid call)
+	badOriginal   []byte              // C08: the value the corrupt payload was made from
 	byz           *byzInfo            // C06: what the byzantine peer did
 	bin           map[string][][]byte // original bytes of generated -Bin values
 
